@@ -188,6 +188,11 @@ def cases(tier, seed):
                 out.append({"problem": problem, "prog": prog, "mesh": "base", "ground": GROUNDS[problem][0], "orphan": False, "resol": "elim", "mode": mode,
                             "krylov": "cg", "homog": True})
     out.append({"kind": "solver_set"})
+    # caller-owned value arrays used for two load cases of one simulation and for a twin
+    for problem in ("elastic", "thermal", "beam"):
+        for form in REUSE_FORMS:
+            for readonly in (False, True):
+                out.append({"kind": "reuse", "problem": problem, "form": form, "readonly": readonly})
     return out
 
 
@@ -765,7 +770,77 @@ def _run_solver_set(case):
             "outcome": "ok" if not v else "violation"}
 
 
+# ------------------------------------------------------------------------------------------------
+# kind "reuse": caller-owned value arrays handed to several calls / several solves
+# ------------------------------------------------------------------------------------------------
+REUSE_FORMS = ["neu", "dir", "line"]
+
+
+def _run_reuse(case):
+    """The value arrays of a condition belong to the caller: the same array objects (writeable or read-only) are handed to the library for
+    two successive load cases of one live simulation (Bc_Init in between) and to a twin simulation. Invariants: the arrays are bit-identical
+    afterwards; both load cases give the same solution; that solution equals the one obtained with fresh copies of the arrays."""
+    problem, form, readonly = case["problem"], case["form"], case["readonly"]
+    spec = make_spec({"problem": problem, "orphan": False, "resol": "elim" if problem != "beam" else "shared"})
+    atom = {"neu": "nC", "dir": "dAa", "line": "lD"}[form]
+    kind, nodes, values, unknowns = spec.atoms[atom]
+    r = rng("c04reuse", problem, form)
+    nodes = np.array(nodes)
+    arrays = [r.uniform(0.2, 0.9, nodes.size) * (0.05 if form == "dir" else 1.0) for _ in unknowns]
+    pristine = [a.copy() for a in arrays]
+    if readonly:
+        for a in arrays:
+            a.flags.writeable = False
+    support = ["G", "dBf"]
+    key = dict(kind="reuse", problem=problem, form=form, readonly=bool(readonly))
+    v, sols, ntr = [], [], 0
+
+    def enter(simu, pt, vals):
+        kw = {"problemType": pt} if spec.problem == "damage" else {}
+        simu.Bc_Init()
+        apply_program(simu, pt, spec, support)
+        if kind == "dir":
+            simu.add_dirichlet(nodes, vals, list(unknowns), **kw)
+        elif kind == "neu":
+            simu.add_neumann(nodes, vals, list(unknowns), **kw)
+        else:
+            simu.add_lineLoad(nodes, vals, list(unknowns), **kw)
+
+    simu, pt = build_simu(spec, "linear")
+    for rep in range(2):
+        try:
+            enter(simu, pt, arrays)
+        except Exception as e:
+            v.append(viol("reuse_raises", f"{problem}: entering a {form} condition with caller-owned {'read-only ' if readonly else ''}arrays (use {rep + 1}) raised {type(e).__name__}: {str(e)[:160]}", **key))
+            break
+        u, err, _ = solve_impl(simu, pt, spec)
+        ntr += 2
+        if err:
+            v.append(viol("solve_raised", f"{problem}/{form}: {err}", **key))
+            break
+        sols.append(u)
+    twin, pt2 = build_simu(spec, "linear")
+    enter(twin, pt2, [a.copy() for a in pristine])
+    uref, err, _ = solve_impl(twin, pt2, spec)
+    ntr += 2
+    for a, b in zip(arrays, pristine):
+        if not np.array_equal(a, b):
+            v.append(viol("input_mutated", f"{problem}: the value array handed to the {form} condition was modified by the library (max change {np.abs(a - b).max():.3e})", **key))
+            break
+    if uref is None or not np.all(np.isfinite(uref)):
+        return {"violations": v, "fingerprint": fp("reuse-undefined", problem, form), "nontrivial": False, "transitions": ntr, "outcome": "undefined", "skipped": "reference twin not solvable"}
+    sc = max(np.abs(uref).max(), 1e-300)
+    for k, u in enumerate(sols):
+        e = np.abs(u - uref).max() / sc
+        if e > 1e-11:
+            v.append(viol("reuse_solution", f"{problem}/{form}: load case {k + 1} entered with the caller's arrays differs from the solution with fresh copies by {e:.3e}", use=k + 1, **key))
+    return {"violations": v, "fingerprint": fp("reuse", problem, form, readonly, uref), "nontrivial": bool(np.abs(uref).max() > 0), "transitions": ntr,
+            "outcome": "violation" if v else "ok"}
+
+
 def run_case(case):
+    if case.get("kind") == "reuse":
+        return _run_reuse(case)
     if case.get("kind") == "solver_set":
         return _run_solver_set(case)
     problem, prog, ground, orphan, resol, mode = (case[k] for k in ("problem", "prog", "ground", "orphan", "resol", "mode"))
